@@ -23,7 +23,7 @@ ASSUMPTIONS = [
     "throttle is stateful and has no arithmetic meaning in the property: not decided",
     "reference predicates are written from the property text (pv/props/c12.py ref_*)",
 ]
-BOUNDS = {"quick": {"box": "[-6,6]^4", "tree_nodes": 4, "chain_depth": 2}, "thorough": {"box": "[-10,10]^4", "tree_nodes": 4, "chain_depth": 3}}
+BOUNDS = {"quick": {"box": "[-6,6]^4", "tree_nodes": 4, "chain_depth": 2}, "thorough": {"box": "[-10,10]^4", "tree_nodes": 4, "chain_depth": 3, "constrained_aliases_at_depth_3": 2}}
 
 
 # ------------------------------------------------------------------ reference predicates (from the statement)
@@ -150,18 +150,33 @@ def with_conditions(call, assign):
 
 
 def selectors(tier):
-    depth = BOUNDS[tier]["chain_depth"]
-    conds = CONDS if tier == "quick" else CONDS_THOROUGH
+    """quick: every assignment of the 4 conditions to the aliases of the chains up to depth 2.
+    thorough: that set, plus chains up to depth 3 with one alias constrained by any of the 8
+    conditions or two aliases constrained by the 4 (the full product is 65M executions)."""
     out = []
-    for base in E.chain_selectors(depth):
-        aliases = R.all_aliases(base)
-        for choice in itertools.product([None] + list(range(len(conds))), repeat=len(aliases)):
-            if all(c is None for c in choice):
-                continue
-            if tier == "thorough" and depth == 3 and sum(c is not None for c in choice) > 2 and len(aliases) > 3:
-                continue
-            assign = {a: conds[c] for a, c in zip(aliases, choice) if c is not None}
+    seen = set()
+
+    def add(base, assign):
+        key = (base, tuple(sorted(assign.items())))
+        if key not in seen:
+            seen.add(key)
             out.append((base, assign))
+
+    for base in E.chain_selectors(2):
+        aliases = R.all_aliases(base)
+        for choice in itertools.product([None] + list(range(len(CONDS))), repeat=len(aliases)):
+            if any(c is not None for c in choice):
+                add(base, {a: CONDS[c] for a, c in zip(aliases, choice) if c is not None})
+    if tier == "thorough":
+        for base in E.chain_selectors(3):
+            aliases = R.all_aliases(base)
+            for a in aliases:
+                for c in CONDS_THOROUGH:
+                    add(base, {a: c})
+            for a, b in itertools.combinations(aliases, 2):
+                for ca in CONDS:
+                    for cb in CONDS:
+                        add(base, {a: ca, b: cb})
     return out
 
 
